@@ -20,7 +20,8 @@ import pathlib
 from sim import fixtures as fx
 from sim.clientwire import ScriptedServer
 from sim.runner import RunResult
-from sim.tofuworld import load_cert
+from sim.storage import SEAM
+from sim.tofuworld import load_cert, read_table
 from sim.world import Sim, fresh_dir
 
 PROPERTY = "C16"
@@ -35,7 +36,7 @@ RULE = ("each run generates a redirect graph over 2-8 URLs on up to three hosts 
         "(graph shape, max_redirects, result class) signatures; non-trivial = the walk contained "
         "at least one redirect")
 PROBES = ["chain_exactly_max", "chain_longer_than_max", "cycle", "self_loop", "cross_host_hop",
-          "grey_target", "non_gemini_target", "cert_changed_on_hop", "cert_swapped_on_later_hop", "overlapping_fetches", "follow_disabled",
+          "grey_target", "non_gemini_target", "cert_changed_on_hop", "cert_swapped_on_later_hop", "overlapping_fetches", "sql_fault_during_fetch", "follow_disabled",
           "max_redirects_zero", "final_after_redirects"]
 COMPONENTS = {
     "real": ["nauyaca.client.session.GeminiClient (_get_with_redirects, _get_single)",
@@ -169,6 +170,11 @@ def run_one(ch):
         for f in fetches:
             n0 = sum(len(s.conns) for s in servers.values())
             r0 = len(reqlog)
+            # a storage fault at a drawn SQL tick of this fetch (pin lookup / pin write)
+            SEAM.fired = None
+            if ch.chance("sqlfault", 0.12):
+                SEAM.fault_at = SEAM.tick + 1 + ch.choose("sqltick", 6)
+                SEAM.fault_kind = "error:database is locked"
             try:
                 r = await client.get(nodes[f["start"]]["url"], follow_redirects=f["follow"])
                 got = ("resp", r.status, r.meta, r.body)
@@ -176,6 +182,9 @@ def run_one(ch):
                 got = ("changed", str(e)[:80])
             except Exception as e:  # noqa
                 got = ("err", type(e).__name__, str(e)[:120])
+            SEAM.fault_at = None
+            f["sqlfault"] = SEAM.fired is not None
+            f["pins_after"] = {k[0]: v for k, v in read_table(str(db_path)).items()}
             out.append((f, got, sum(len(s.conns) for s in servers.values()) - n0, reqlog[r0:],
                         {h: len(s.conns) for h, s in servers.items()}))
 
@@ -247,6 +256,20 @@ def run_one(ch):
                    request_lines=[r[1][:80] for r in reqs],
                    graph=[(n["url"], n["kind"], n.get("meta", "")[:60]) for n in nodes],
                    pinned_wrong_host=bad_host, cert_swap_after_n_connections=swap_after)
+        if f.get("sqlfault"):
+            # under a storage fault only the safety rule is demanded: a hop whose
+            # certificate differs from its pin never yields a response
+            st["sql_fault_during_fetch"] = 1
+            if verdict[0] == "changed" and got[0] == "resp":
+                res.violate("C16/hop-certificate-not-verified",
+                            "storage fault during the fetch: a hop whose certificate differs from "
+                            "its pin was accepted and a response returned", **ctx)
+            # continue from the real pin store
+            fpmap = {fx.fp(c): c for c in list(certs.values()) + ["rsa3", "rsa4"]}
+            pins.clear()
+            for h_, v_ in f["pins_after"].items():
+                pins[h_] = fpmap.get(v_, v_)
+            continue
         # ---- universal rules --------------------------------------------
         limit = (max_r + 1) if f["follow"] else 1
         group_limit_acc.append(limit)
